@@ -26,7 +26,7 @@ CAUGHT = {
  "C17/A": (["C17", "C07"], ["C09"], "same change as C09/A"),
  "C17/B": ([], ["C17"], "caught statically: the re-extracted access table no longer satisfies C17_accesses_locked (write under a read lock); reported with no-failing-input-found"),
  "C18/A": (["C18"], [], ""),
- "C18/B": ([], [], "NOT CAUGHT: needs an event dispatched while another goroutine is inside AddEventHandler; the informer harness issues operations sequentially"),
+ "C18/B": (["C18"], [], "needs the concurrent operation of the informer stream: an outside write is made while another goroutine is inside AddEventHandler (the new handler's replay is held open)"),
  "C19/A": (["C19"], [], ""), "C19/B": (["C19"], [], ""),
  "C20/A": (["C20"], [], ""),
  "C20/B": ([], [], "no longer breaks the property on the current tree: fix a6c157f removes the old instance from the map before the constructor runs, so the dropped delete is unreachable"),
